@@ -8,6 +8,7 @@ import (
 	"fmt"
 	"os"
 	"path/filepath"
+	"strconv"
 	"time"
 
 	simdjson "github.com/minio/simdjson-go"
@@ -43,6 +44,42 @@ func makeEditedObjSized(r *Run, what string, big, huge bool) *simObj {
 		cfg.ND = false
 		doc = GenBulkDoc(c, 20000+c.Intn("dedupsz", 200000), []int{FamDedup}).B
 		r.stat("dedup_stress_docs", 1)
+	} else if huge && c.Intn("mega", 4) == 0 {
+		// sections beyond 1 MiB (codec block sizes, not only the serializer's own 64 KiB flush blocks)
+		cfg.ND = false
+		var b bytes.Buffer
+		b.WriteByte('[')
+		if c.Intn("megakind", 2) == 0 {
+			// few, long, distinct strings: a string table of 1.2-3 MiB behind a short value stream
+			n := 12 + c.Intn("megastrs", 20)
+			for i := 0; i < n; i++ {
+				if i > 0 {
+					b.WriteByte(',')
+				}
+				b.WriteByte('"')
+				seed := c.U64("megaseed")
+				l := 70000 + c.Intn("megalen", 50000)
+				for k := 0; k < l; k++ {
+					seed = seed*6364136223846793005 + 1442695040888963407
+					b.WriteByte("abcdefghijklmnopqrstuvwxyzABCDEFGHIJKLMNOPQRSTUVWXYZ0123456789-_"[seed>>58])
+				}
+				b.WriteByte('"')
+			}
+		} else {
+			// a value stream beyond 1 MiB: more than 131072 numbers
+			n := 140000 + c.Intn("megaints", 120000)
+			seed := c.U64("megaseed")
+			for i := 0; i < n; i++ {
+				if i > 0 {
+					b.WriteByte(',')
+				}
+				seed = seed*6364136223846793005 + 1442695040888963407
+				b.WriteString(strconv.FormatInt(int64(seed>>20)-(1<<42), 10))
+			}
+		}
+		b.WriteByte(']')
+		doc = b.Bytes()
+		r.stat("mega_sections", 1)
 	} else if huge {
 		cfg.ND = false
 		doc = GenBulkDoc(c, 150000+c.Intn("hugesz", 350000), []int{FamDenseArrays, FamZeros, FamNumbers, FamStrings, FamMixed, FamWide, FamBigMembers, FamBigMembers}).B
@@ -775,6 +812,15 @@ func RunHistReuse(r *Run) {
 				*dstObj = simObj{pj: out, model: cloneRoots(src.model), nd: src.nd, copy: true, origin: what + " clone"}
 				trace = append(trace, "clone into reused dst")
 				readBack(r, dstObj, bInto|bAdv, fmt.Sprintf("%s: clone into a reused destination; history: %v", what, trace), nil)
+				if !r.failed() {
+					// the clone's tape is the source's tape, entry for entry - nothing of the destination's past behind it
+					// (Serialize walks the exported Tape to its end)
+					if len(out.Tape) != len(src.pj.Tape) {
+						r.violate("clone", "tape-length", fmt.Sprintf("%s: clone into a reused destination has %d tape entries, the source %d; history: %v", what, len(out.Tape), len(src.pj.Tape), trace))
+					} else if len(out.Tape) < 200000 {
+						readBack(r, dstObj, bSerial, fmt.Sprintf("%s: clone into a reused destination, serialized; history: %v", what, trace), []*simdjson.Serializer{simdjson.NewSerializer()})
+					}
+				}
 				if !r.failed() {
 					readBack(r, src, bInto, fmt.Sprintf("%s: source after cloning into a reused destination", what), nil)
 				}
